@@ -15,6 +15,12 @@ NA = {
 }
 
 CHECKS = {
+    "C03": dict(
+        text="Seeded search over call histories of every constitutive object that constructs offline (hand-coded Neo-Hooke family, volumetric, linear-elastic large-strain, Ogden-Roxburgh hand-coded and tensortrax, small-strain plasticity, finite-strain viscoelasticity, 14 tensortrax hyperelastic models, composite, NearlyIncompressible and ThreeFieldVariation wrappers): a material-point machine drives trial(F) / commit / reject sequences along monotone, cyclic and random strain paths incl. rejected excursions; the same monitors sit between body and material inside FE job histories. At every call: elasticity blocks (all six for mixed formulations) vs central differences of the stress at the same committed state (kink rule, max-history band), stress vs central differences of the energy where exposed, inputs (committed state variables!) byte-identical afterwards, repeated call idempotent, dirty reused out= buffers without influence. Sampling, not proof. jax models are not exercised in the quick tier.",
+        note="Trusted: FD oracle at 2e-6 relative (calibrated), numpy. Real: felupe.constitution, tensortrax. Simulated: the call history and buffer reuse protocol; FE runtime in job mode. For stateless models the derivative clause is input sampling (stated in evidence).",
+        technique="deterministic simulation of constitutive call histories (trial/commit/reject, buffer reuse) with finite-difference and byte-digest monitors at every seam call",
+        ref="DESIGN.md section 7 (C03)",
+    ),
     "C01": dict(
         text="Seeded search over Newton histories of every item kind (solid bodies on 3D / plane-strain / axisymmetric / mixed fields, nearly-incompressible body, follower pressure, Cauchy-stress load, multi-point constraint and contact, point / body loads, form items; hyperelastic and history-dependent materials). At seeded iterations the exact K and -f Newton summed (multiplier, resize, link and cache protocol included) are taken at the solve= seam and K.d is compared with central differences of fun_items on cold forks at x +- h d (two step sizes; kink rule on the one-sided difference gap; step-size consistency rule), plus cache transparency (live == cold fork), symmetry of conservative items, the settled-state tangent of the condensed body, and the parallel knob under a simulated pool. Sampling, not proof.",
         note="Trusted: finite-difference oracle with tolerance 2e-6 relative (calibrated 3 orders above the unchanged tree), fork builder, numpy/scipy. Real: all items, materials, assembly, Newton. Simulated: solver layer (inexact/scaled/flipped updates move the iterates to unusual states), einsumt pool.",
